@@ -88,6 +88,12 @@ def eatByte (c : Cur) (b : Nat) : Option Cur :=
   | x :: t => if x = b then some ⟨c.pos + 1, t⟩ else none
   | [] => none
 
+/-- `eat_byte` as a state transformer: the returned `bool` and the new cursor. -/
+def eatByteB (c : Cur) (b : Nat) : Bool × Cur :=
+  match c.eatByte b with
+  | some c' => (true, c')
+  | none => (false, c)
+
 /-- `eat_byte_if` -/
 def eatByteIf (c : Cur) (p : Nat → Bool) : Option Cur :=
   match c.rest with
@@ -513,10 +519,9 @@ def tbFirst : Nat → Cur → List Nat → TbFirst
     let c1 := c.eatWhile isSpTab
     let prefixEnd := c1.pos
     let pfx := c.rest.take (prefixEnd - prefixStart)
-    let (c2, str2) :=
-      match c1.eatByte 13 with
-      | some c2 => (c2, 13 :: str)
-      | none => (c1, str)
+    let r := c1.eatByteB 13
+    let c2 := r.2
+    let str2 := if r.1 then 13 :: str else str
     if pfx.isEmpty then
       match c2.eatByte 10 with
       | some c3 => tbFirst f c3 (10 :: str2)
@@ -539,7 +544,9 @@ def tbLoop (start : Nat) (pfx : List Nat) (stripLastLf : Bool) : Nat → Cur →
   | f + 1, c, str =>
     match c.eatByte 10 with
     | some c1 =>
-      let (c2, str2) := tbEmptyLines c1.pos c1.rest (10 :: str)
+      let r := tbEmptyLines c1.pos c1.rest (10 :: str)
+      let c2 := r.1
+      let str2 := r.2
       match c2.eatSlice pfx with
       | some c3 => tbLoop start pfx stripLastLf f c3 str2
       | none =>
@@ -561,10 +568,9 @@ def tbLoop (start : Nat) (pfx : List Nat) (stripLastLf : Bool) : Nat → Cur →
 
 /-- `lex_text_block`; `c` is the cursor after `|||`. -/
 def lexTextBlock (start c : Cur) : Res :=
-  let (strip, c1) :=
-    match c.eatByte 45 with
-    | some c1 => (true, c1)
-    | none => (false, c)
+  let r := c.eatByteB 45
+  let strip := r.1
+  let c1 := r.2
   let c2 := c1.eatWhile isSpTabCr
   match c2.eatByte 10 with
   | none => .err .MissingLineBreakAfterTextBlockStart start.pos c2.pos
@@ -652,9 +658,8 @@ def lexLoop (wsAndComments : Bool) : Nat → Cur → List Token → Outcome
     | .tok k c' =>
       let token : Token := ⟨k, c.pos, c'.pos⟩
       let acc' := if wsAndComments || !isTrivia k then token :: acc else acc
-      match k with
-      | .eof => .ok acc'.reverse
-      | _ => lexLoop wsAndComments f c' acc'
+      if k = .eof then .ok acc'.reverse      -- `is_eof`
+      else lexLoop wsAndComments f c' acc'
 
 /-- `Lexer::new(.., input).lex_to_eof(whitespaces_and_comments)` -/
 def lexAll (input : List Nat) (wsAndComments : Bool) : Outcome :=
